@@ -214,9 +214,11 @@ PROPS['C26'] = dict(
          'refused and leaves the stored text untouched; storing to a free number makes exactly that text the one get returns; get hits exactly the stored numbers; the control record returned is the '
          'LAST pair stored and a control put always succeeds (both obligations failed before fixes 4ce2d71 / 7005104); the last sequence number is the largest stored key (0 when empty) and not '
          'below any stored number; nearest-highest (requested >= 1) lies in [requested, last] and is not above any stored number in that range (loop contract, every range). These are the '
-         'inductive steps of "behaves like a map from sequence number to bytes plus one control record" for every sequence of these operations. NOT decided: the range retrieval '
-         'MemoryPersister::get(from, to, session, callback) (callback protocol), the whole FilePersister (lseek/read/write over two files), the history lemma as one composed statement.',
-    note='std::map / std::string are ASSUMED models (single-witness abstraction); FilePersister and the range-get callback protocol are not covered; find_nearest_highest_seqnum(0, last) returns 0 '
+         'inductive steps of "behaves like a map from sequence number to bytes plus one control record" for every sequence of these operations. Range retrieval '
+         'MemoryPersister::get(from, to, session, callback) (dfcc loop contract over the iterator, every store and range): exactly the stored records of [from, to] (to = 0: up to the last) are '
+         'handed to the callback, each once, in ascending order and with the stored text, then completion is signalled exactly once, and the count returned is the number handed over. '
+         'NOT decided: the whole FilePersister (lseek/read/write over two files), the history lemma as one composed statement.',
+    note='std::map / std::string are ASSUMED models (single-witness abstraction); FilePersister is not covered; the range-get callback is a model that always asks to continue; find_nearest_highest_seqnum(0, last) returns 0 '
          'when a control record exists (key 0 is found first): requested >= 1 is a stated precondition (sequence numbers start at 1)',
     trusted_base=COMMON_TRUST,
     explanation='Each for-all-keys clause of the store contract is stated about one arbitrary ghost key; the map model answers exactly for that key and nondeterministically for every other, '
@@ -305,7 +307,7 @@ PROPS['C22'] = dict(
 )
 
 PROPS['C18'] = dict(
-    units=['k_rtx', 'k_send'], level='proof', design_ref='6/C18',
+    units=['k_rtx', 'k_send', 'k_mper'], level='proof', design_ref='6/C18',
     technique='CBMC harness contracts on Session::retrans_callback (per stored record and for the completion call) and Session::handle_resend_request extracted from the clang AST of '
               'runtime/session.cpp, with a ghost coverage counter (first number of the requested range not yet answered) and a ghost send log; the persister\'s range protocol, message '
               'generation and send() are assumed models',
@@ -316,7 +318,8 @@ PROPS['C18'] = dict(
          'progress, rejects Begin > End (End != 0) or Begin = 0, hands a valid range unchanged to the persister, and without a persister gap-fills the whole range. By induction over the '
          'persister\'s callback protocol (ASSUMED: ascending stored records of the range, then completion) every number of the range is answered exactly once, in ascending order. '
          'A replayed message (one that reaches send_process already carrying MsgSeqNum) keeps that number and goes out with PossDupFlag=Y and OrigSendingTime equal to its original SendingTime (k_send/send_possdup, proved-modular). '
-         'NOT decided: that protocol itself (MemoryPersister/FilePersister::get(from,to,..)), the bytes of the replayed body.',
+         'That protocol is proved for the memory persister (k_mper/range: MemoryPersister::get(from, to, ..) hands over exactly the stored records of the range, ascending, then signals completion once). '
+         'NOT decided: FilePersister::get(from,to,..), the bytes of the replayed body.',
     note='persister range protocol, generate_sequence_reset, Message::factory and send are ASSUMED models; numbers below 2^31 in the request handler (it computes in int)',
     trusted_base=COMMON_TRUST,
     explanation='The whole-range statement is an induction over the callback sequence; the inductive step is the per-callback contract over the ghost coverage counter.',
@@ -502,6 +505,8 @@ def _replay_k_enc(oid, inputs, trace, wd):
 
 def _replay_k_mper(oid, inputs, trace, wd):
     R = _rp.astdump.REPO
+    if '.range.' in oid:      # the range retrieval is exercised through the real Session::handle_resend_request (three store shapes, bounded and open ranges)
+        return _replay_k_seq('C18.' + oid, inputs, trace, wd)
     exe = _rp.build_native(os.path.join(_rp.VERIF, 'replay', 'k_mper.cpp'), os.path.join(wd, 'replay_k_mper'),
                            extra=[R + '/runtime/persist.cpp', R + '/runtime/logger.cpp', R + '/runtime/f8utils.cpp', '-lz'], timeout=1200)
     os.makedirs(os.path.join(wd, 'mperscratch'), exist_ok=True)
